@@ -130,6 +130,8 @@ def check_history(ctx, pid, ordered, ttl, ops, out, attrs_cache):
         if p[0] == 'l':
             spec.ttl = None if p[1] == 'N' else int(p[1])
             continue
+        if p[0] in 'ra':
+            continue
         if k >= len(items):
             ctx.fail('missing output', inp, '', out[:300], {'kind': 'harness'})
             return
@@ -141,6 +143,15 @@ def check_history(ctx, pid, ordered, ttl, ops, out, attrs_cache):
         mm = re.match(r'^(u[+-]|c|p|n)\[([^\]]*)\]', head)
         if mm is None:
             if head.startswith('uERR'):
+                continue
+            if head.startswith('g'):
+                if pid == 'C12':
+                    want = [t for t in spec.state() if t[0] == int(p[1])]
+                    got_t = parse_state('{' + head[1:] + '}')
+                    if got_t != want or sorted(st) != spec.state():
+                        ctx.fail('get_track differs from the track the tracker holds for the vessel',
+                                 dict(inp, at=op[:40]), want, got_t, {'kind': 'get_track'})
+                        return
                 continue
             ctx.fail('unparsable output', inp, '', item[:200], {'kind': 'harness'})
             return
@@ -265,8 +276,12 @@ def random_history(rng, pool, length, ttl_choices, epoch=0, mix=False):
         elif r < 0.9:
             now += rng.choice([0, 1, 1, 2, 3, 5, 10])
             ops.append('t:%d' % now)
-        elif r < 0.95:
+        elif r < 0.93:
             ops.append('l:%s' % rng.choice(ttl_choices))
+        elif r < 0.95:
+            ops.append('%s:%s' % (rng.choice('ra'), rng.choice('CUD')))     # an observer leaves / comes back
+        elif r < 0.97:
+            ops.append('g:%d' % rng.choice(mmsis + [999]))
         else:
             ops.append('n:%d' % rng.randint(0, len(mmsis) + 1))
     return ops
